@@ -98,6 +98,14 @@ Theorem C19_prediction_group_order_refuted :
     /\ predicted_places a req cx = Ok [] /\ real_places a req cx = Ok [(1, 1)].
 Proof. exact prediction_group_order_refuted. Qed.
 
+(* The recursion of ApplicationJobs.next and the event loop of feed_model are modelled with fuel: the fuel of the
+   model is always sufficient (an OutOfFuel result can only come from the placement function itself). *)
+Theorem C19_run_never_out_of_fuel :
+  forall place md inp req,
+    (forall a b c d e, place a b c d e <> Crash OutOfFuel) ->
+    run place md inp req <> Crash OutOfFuel.
+Proof. exact run_never_out_of_fuel. Qed.
+
 (* The hypotheses are satisfiable on non-trivial situations. *)
 Example C19_hypotheses_satisfiable :
   let cx := build_ctx w_cd_ok in
